@@ -165,7 +165,7 @@ class Effects:
             if ts and all(t[0] == "prim" and t[1] != "callable" for t in ts):
                 return {CONST}
         if isinstance(e, ast.Name):
-            return self._name_roots(fn, e.id)
+            return self._name_roots(fn, e.id, at=e)
         if isinstance(e, (ast.Constant, ast.JoinedStr, ast.Compare, ast.Lambda)):
             return {CONST}
         if isinstance(e, ast.Attribute):
@@ -254,10 +254,63 @@ class Effects:
             fn = fn.parent
         return fn
 
-    def _name_roots(self, fn: Optional[FuncInfo], name: str) -> Set[Root]:
+    def _reaching(self, owner: FuncInfo, defs: list, at: ast.AST) -> list:
+        """Definitions of a local name that can reach the use ``at`` (flow-sensitive filter)."""
+        real = [d for d in defs if d.kind in ("assign", "annassign", "elem", "elem_unpack", "unpack", "with", "param", "aug")]
+        if len(real) < 2 or len(real) != len(defs):
+            return defs
+        if any(isinstance(d.node, ast.comprehension) for d in defs):
+            return defs
+        # the use must be in the same function as the definitions
+        n = at
+        while n is not None and not isinstance(n, (ast.FunctionDef, ast.AsyncFunctionDef, ast.Lambda)):
+            if isinstance(n, (ast.ListComp, ast.SetComp, ast.DictComp, ast.GeneratorExp)):
+                pass
+            n = parent(n)
+        if n is not owner.node:
+            return defs
+        g = self.flow.cfg(owner)
+        use_nodes = [x for x in g.node_containing(at) if x.kind != "with_exit"]
+        if not use_nodes:
+            return defs
+        def_nodes = {}
+        for d in defs:
+            if d.kind == "param":
+                def_nodes[id(d)] = [g.entry]
+            else:
+                ns = [x for x in g.node_containing(d.node) if x.kind != "with_exit"]
+                if isinstance(d.node, (ast.For, ast.AsyncFor)):
+                    ns = [x for x in g.nodes_for(d.node)]
+                if not ns:
+                    return defs
+                def_nodes[id(d)] = ns
+        out = []
+        all_def_nodes = set()
+        for ns in def_nodes.values():
+            all_def_nodes |= set(ns)
+        for d in defs:
+            mine = set(def_nodes[id(d)])
+            others = all_def_nodes - mine
+            seen = g.reach(list(mine), avoid=lambda x: x in others and x not in use_nodes)
+            hit = False
+            for u in use_nodes:
+                if u in seen:
+                    hit = True
+                elif u in mine and d.kind == "aug":
+                    hit = True
+            if hit:
+                out.append(d)
+        return out or defs
+
+    def _name_roots(self, fn: Optional[FuncInfo], name: str, at: Optional[ast.AST] = None) -> Set[Root]:
         inf = self.inf
         owner, defs = inf.lookup_name(fn, name)
         out: Set[Root] = set()
+        if defs and at is not None and owner is not None and len(defs) > 1:
+            try:
+                defs = self._reaching(owner, defs, at)
+            except RecursionError:  # pragma: no cover
+                pass
         if defs:
             for d in defs:
                 if d.kind == "param":
